@@ -457,7 +457,9 @@ pub fn run(cfg: &RunCfg, t0: Instant) -> i32 {
                 if s % 2 == 0 {
                     pool_shard(cfg, s, n, vec![Box::new(c20::C20::new(first, 15))], &|_, _| {})
                 } else {
-                    farm_shard(cfg, s, n, vec![Box::new(c20::C20::new(first, 15))], &|g, _| {
+                    let mut m = c20::C20::new(first, 15);
+                    m.farm_side = true;
+                    farm_shard(cfg, s, n, vec![Box::new(m)], &|g, _| {
                         g.weights = [16, 12, 4, 6, 14, 6, 9, 6, 4, 12, 3, 2, 4, 3];
                     })
                 }
